@@ -216,6 +216,42 @@ def fourier_resample(f, zoom):
     return fprime
 
 
+def fourier_resample_backprop(fbar, zoom, shape):
+    """Gradient backpropagation for fourier_resample.
+
+    Parameters
+    ----------
+    fbar : ndarray
+        the array from the previous gradient calculation step, shape of the
+        output of fourier_resample
+    zoom : float
+        zoom factor that was given to fourier_resample
+    shape : tuple of int
+        shape of the array that was given to fourier_resample
+
+    Returns
+    -------
+    ndarray
+        gradient with respect to the input of fourier_resample, of shape shape
+
+    """
+    if zoom == 1:
+        return fbar
+
+    if isinstance(zoom, (float, int)):
+        zoom = (zoom, zoom)
+    elif not isinstance(zoom, tuple):
+        zoom = tuple(float(zoom) for zoom in zoom)
+
+    m, n = shape
+    # adjoint of each step of fourier_resample, in reverse order:
+    # scaling, matrix idft, and the (unnormalized) shifted FFT, whose conjugate transpose is m*n times the shifted iFFT
+    Fbar = mdft.idft2_backprop(fbar, zoom, (m, n))
+    fprimebar = fft.fftshift(fft.ifft2(fft.ifftshift(Fbar))).real
+    fprimebar *= (m * n) * (zoom[0]*zoom[1])/(np.sqrt(m * n))
+    return fprimebar
+
+
 class MatrixDFTExecutor:
     """MatrixDFTExecutor is an engine for performing matrix triple product DFTs as fast as possible."""
 
